@@ -44,14 +44,18 @@ ASSUMPTIONS = [
     'scope limits of the rule (oracle silent or not judged): operator fields together with the '
     'full-document oracle (judged per field instead), flag values other than 0/1/true/false, '
     'mixed inclusion/exclusion, colliding paths, empty path components, positional "$", '
-    '"_id.x" paths, arrays directly inside a descended array, `_id: 1` in a $project exclusion',
+    '"_id.x" paths, `_id: 1` in a $project exclusion',
     '$elemMatch is judged relative to the real matcher filter_applies (C01 covers the matcher)',
     'find_one_and_* picks its target on the full document (fix: commit in /repo) and returns the '
     'projection of that document, empty or not',
     'sort / skip / limit are not combined with projection here (C11)',
 ]
 
-FINDINGS = {'mixedarray', 'exclscalar', 'aggdroparr', 'slicelimit', 'sliceskip', 'slicealone'}
+# classes of deviation still excused (listed in known_findings.json with status "known"): none.
+# The classes mixedarray, exclscalar, aggdroparr, slicelimit, sliceskip, slicealone were repaired
+# in the library: they are no reasons of the Lean domain any more, their witnesses are replayed
+# as ordinary cases on every run (`fixed_cases`) and any recurrence is a VIOLATION.
+FINDINGS = set()
 
 
 # ---------------------------------------------------------------------------------------------
@@ -439,17 +443,32 @@ class Judge(object):
         ctx = self.ctx
         p = c['proj']
         if is_err(res):
+            # a well-shaped `$slice` the rule answers must not be refused: judged when the
+            # operator field is the whole specification (no other source of errors)
+            so = single_op(p, d)
+            if (so and so[1] == '$slice' and ('slice%d' % i) in out and
+                    all(k == so[0] or (k == '_id' and v in (0, 1)) for k, v in p.items())):
+                impl, spec, reasons = parts(out['slice%d' % i])
+                self.direct['slice'] += 1
+                if spec != '?' and not reasons.split():
+                    ctx.violation(render(c, kind='$slice refused an operand the rule answers',
+                                         doc_index=i, field=so[0], python=res,
+                                         expected=wire.pretty(wire.dec(spec))),
+                                  rank=20 + len(repr(p)))
             return
         self.direct['sub'] += 1
         if not sub(res, d):
             ctx.violation(render(c, kind='projection altered or invented a value: the result is '
                                  'not part of the stored document', doc_index=i,
                                  python=wire.pretty(res)), rank=10 + len(repr(p)))
-        # `$slice` alone keeps the other fields
+        # `$slice` alone keeps the other fields, as they are
         if slice_only(p):
             self.direct['slicealone'] += 1
-            if not all(k in res for k in d):
-                self.finding(c, ['slicealone'], doc_index=i, python=wire.pretty(res))
+            if list(res) != list(d) or not all(
+                    same_object(res[k], d[k]) for k in d if k not in p):
+                ctx.violation(render(c, kind='a projection made only of $slice fields did not '
+                                     'keep the other fields of the document', doc_index=i,
+                                     python=wire.pretty(res)), rank=20 + len(repr(p)))
         # per-field rule for `$slice` / `$elemMatch`
         so = single_op(p, d)
         if not so:
@@ -460,20 +479,19 @@ class Judge(object):
             reasons = reasons.split()
             self.direct['slice'] += 1
             got = wire.encs(res[f], c['oids']) if f in res else '_'
-            if impl.startswith('!'):
-                return
+            if reasons:
+                return                      # operand not an int / a pair of ints: the rule is silent
             if spec == '?':
-                if 'slicelimit' in reasons:
-                    self.finding(c, ['slicelimit'], doc_index=i, python=wire.pretty(res.get(f)))
+                # the rule refuses the operand (limit <= 0) and the code answered
+                ctx.violation(render(c, kind='$slice answered an operand the rule refuses '
+                                     '(limit <= 0)', doc_index=i, field=f,
+                                     python=wire.pretty(res.get(f))), rank=20 + len(repr(p)))
                 return
             if got != spec:
-                if reasons:
-                    self.finding(c, reasons, doc_index=i, python=wire.pretty(res.get(f)))
-                else:
-                    ctx.violation(render(c, kind='$slice did not keep the stated part of the array',
-                                         doc_index=i, field=f, python=wire.pretty(res.get(f)),
-                                         expected=wire.pretty(wire.dec(spec))),
-                                  rank=20 + len(repr(p)))
+                ctx.violation(render(c, kind='$slice did not keep the stated part of the array',
+                                     doc_index=i, field=f, python=wire.pretty(res.get(f)),
+                                     expected=wire.pretty(wire.dec(spec))),
+                              rank=20 + len(repr(p)))
         elif name == '$elemMatch' and isinstance(operand, dict):
             self.direct['elemMatch'] += 1
             try:
@@ -575,6 +593,21 @@ def corpus_cases():
     return out
 
 
+def fixed_cases():
+    """the witnesses of the repaired findings, as ordinary cases: judged like any generated case,
+    so the old behaviour is a VIOLATION if it comes back"""
+    out = []
+    for e in common.load_known('C12'):
+        if e.get('status') != 'fixed':
+            continue
+        wt = e['witness']
+        agg = wt['entry'] == 'aggregate'
+        out.append(case_from({'wire_docs': [wt['wire_doc']], 'wire_filter': '{ }',
+                              'wire_proj': '{ S61 I1 }' if agg else wt['wire_proj'],
+                              'wire_aggproj': wt['wire_proj'] if agg else '{ S61 I1 }'}))
+    return out
+
+
 def nontrivial(c, i):
     r, d = c['per'][i], c['stored'][i]
     if is_err(r):
@@ -588,7 +621,7 @@ def run(ctx, proof, driver_ok):
     n = ctx.n(6000, 120000)
     rng = random.Random(ctx.seed * 1000003 + 1212)
     judge = Judge(ctx)
-    corpus = corpus_cases()
+    corpus = corpus_cases() + fixed_cases()
     run_cases(ctx, corpus, judge)
     kinds = collections.Counter()
     seen = set()
